@@ -121,14 +121,14 @@ def main():
         rep.fail("tie:build", "compiler / driver no longer builds (tie broken)", {"kind": "broken-obligation", "detail": str(e)[-2000:]}, no_input=True)
         write_evidence(PID, "other", {"explanation": "build failed", "obligations": 1, "discharged": 0}, violations=1)
         return rep.finish()
-    nb = 14 if tier == "quick" else 150
+    nb = 10 if tier == "quick" else 150
     bases = []
     for i in range(nb): bases.append(("random", coregen.Gen(SplitMix64(seed() * 7000 + i), FEATS).program()))
     for i in range(nb): bases.append(("narrow", narrow_grid(rng)))
     for i in range(nb // 2): bases.append(("const-flow", const_flow(rng)))
     import c08
     for i in range(nb // 2): bases.append(("dyn-history", c08.history(rng, rng.choice(["i32", "i64", "u8"]), "none")))
-    for name, feats, sx in catalogue.PROBES[:: (6 if tier == "quick" else 1)]: bases.append(("probe:" + name, sx))
+    for name, feats, sx in catalogue.PROBES[:: (9 if tier == "quick" else 1)]: bases.append(("probe:" + name, sx))
     per_kind = 2 if tier == "quick" else 4
     bm = model_run([b for _, b in bases])
     progs, meta = [], []
@@ -160,7 +160,7 @@ def main():
             if vk == "base" or not usable[i]: continue
             b, rb = ms[bi], res[bi]
             if target == "wasm" and not rb.accepted: continue           # outside the common domain
-            if bi not in base_checked[target]:
+            if bi not in base_checked[target] and not kind.startswith("probe:"):        # probes: C01/C02 own them (baseline + known findings)
                 base_checked[target].add(bi)
                 c0 = compare(b, rb, target)
                 if c0 and rb.accepted:
